@@ -208,6 +208,37 @@ static void do_class(long item)
     class_family(4, 4, HEXCLS, 12, item, thorough ? 7 : 6);
 }
 
+/* (c') the documented length macro sodium_base64_ENCODED_LEN with argument *expressions* of every operator-precedence class (a macro
+ * argument is substituted textually, so an unparenthesised use changes the value for `a + b` but not for a plain variable): all
+ * a, b in 0..47 x the four variants, oracle = length of the reference encoding of the value of the expression */
+static size_t ref_enc_len(size_t n, int variant) { return (variant & 2) ? (n * 4 + 2) / 3 + 1 : ((n + 2) / 3) * 4 + 1; }
+#define ML_CHECK(EXPR_LEN, EXPR_VAR, NAME) do { size_t got_ = (size_t) sodium_base64_ENCODED_LEN(EXPR_LEN, EXPR_VAR); size_t val_ = (size_t) (EXPR_LEN); int var_ = (int) (EXPR_VAR); \
+        n_eval++; n_nontriv++; \
+        if (got_ != ref_enc_len(val_, var_) || sodium_base64_encoded_len(val_, var_) != ref_enc_len(val_, var_)) { char key_[160]; snprintf(key_, sizeof key_, "base64_ENCODED_LEN-macro/%s/a=%zu/b=%zu/variant=%d", NAME, a, b, var_); \
+            vf_fail(key_, "macro gives %zu, the encoding of %zu bytes needs %zu (with NUL)", got_, val_, ref_enc_len(val_, var_)); } } while (0)
+static void macro_args(void)
+{
+    size_t a, b; int v;
+    for (v = 0; v < 4; v++) for (a = 0; a < 48; a++) for (b = 0; b < 48; b++) {
+        const int var = VARIANTS[v]; const unsigned char lo = (unsigned char) (var & 1), hi = (unsigned char) (var & 6);
+        ML_CHECK(a + b, var, "a+b");
+        ML_CHECK(a + b + 1U, var, "a+b+1");
+        if (a >= b) ML_CHECK(a - b, var, "a-b");
+        ML_CHECK(a | b, var, "a|b");
+        ML_CHECK(a ^ b, var, "a^b");
+        ML_CHECK(a & b, var, "a&b");
+        ML_CHECK(a << 1, var, "a<<1");
+        ML_CHECK(a >> 1, var, "a>>1");
+        ML_CHECK(b ? a : 7U, var, "b?a:7");
+        ML_CHECK(a * 2U + b, var, "a*2+b");
+        ML_CHECK(a % 5U, var, "a%5");
+        ML_CHECK(a, lo | hi, "variant=lo|hi");
+        ML_CHECK(a, hi + lo, "variant=hi+lo");
+        ML_CHECK(a, b & 1U ? var : var, "variant=?:");
+        ML_CHECK(a + b, lo | hi, "a+b,variant=lo|hi");
+    }
+}
+
 /* (c) encoders + every 1-mutation of valid encodings, byte strings of length 0..70 */
 static const unsigned char MUT[14] = { 'A', 'B', 'Q', '/', '_', '+', '-', '=', ' ', ':', 0x00, 0xE9, 'g', '0' };
 static void enc_check(const unsigned char *bin, size_t len)
@@ -354,6 +385,7 @@ int main(void)
     vf_parallel(16, 0, 256, do_enc_short, fin); printf("INFO t_enc %ld\n", (long) time(NULL));
     snprintf(vf_ctx, sizeof vf_ctx, "c15 encoders at long lengths"); vf_crash_cb = NULL;
     vf_parallel(16, 0, 24, do_enc_long, fin);
+    macro_args(); fin();
     misuse_probes(); fin();
     vf_sample("base642bin variant=ORIGINAL text=\"QUJD\" capacity=2 end=given -> must fail (needs 3 bytes), nothing written past 2");
     vf_sample("base642bin variant=URLSAFE text=\"QQ=:=\" ignore=\":\" -> 1 byte 0x41, end at 5 (ignored char inside the padding)");
